@@ -11,6 +11,8 @@ answer of `replace_step` as far as no Fitter is involved, and the range `delete_
 Search: on the real code: no exception on the bundled-family schemas (totality — decided by search
 only), `check()` + the independent validator, and content preservation computed from to_json().
 """
+import random
+
 from prosemirror.model import Fragment, Slice
 from prosemirror.transform import Transform
 
@@ -59,8 +61,8 @@ def run(ctx):
         outs = ctx.driver.run(reqs) if reqs else []
         for req, (op, replay, exp), out in zip(reqs, metas, outs):
             ctx.count("model_requests")
-            if op in ("fitsTrivially", "replaceStepTrivial", "deleteRangeTarget"):
-                # planning code modelled in lean/PM/RangeOps.lean: exact, including "the code raises"
+            if op in rangeplan.EXACT_OPS:
+                # planning code modelled in lean/PM/RangeOps.lean, Fitter.lean, FillOrder.lean: exact, including "the code raises"
                 if rangeplan.answer(out) != exp:
                     ctx.mismatch(op, replay, exp, out)
                 continue
@@ -78,6 +80,10 @@ def run(ctx):
         val = validator(schema)
         ctx.driver.add_schema(info)
         docs = [gen.gen_doc(rng, schema, budget=rng.choice([6, 12, 25])) for _ in range(ctx.budget(5, 10))]
+        if bundled and si < 2 * len(fam):
+            # the fill / wrap choices the Fitter depends on (lean/PM/FillOrder.lean), exactly, on a private random stream
+            frags = [n.content for d_ in docs for n in [d_] + [d_.child(i) for i in range(d_.child_count)]]
+            rangeplan.tie_fill_wrap(ctx, info, random.Random(ctx.seed * 1000 + si), frags, reqs, metas)
         for d in docs:
             old = doc_tokens(d)
             for _ in range(ctx.budget(14, 40)):
@@ -89,6 +95,9 @@ def run(ctx):
                 # trivial path for the requested (from, to, slice), and the range delete_range hands to Transform.delete
                 rangeplan.tie_trivial(ctx, info, d, f, t, req, reqs, metas)
                 rangeplan.tie_delete_range(ctx, info, d, f, t, reqs, metas)
+                if bundled:
+                    # the Fitter itself (lean/PM/Fitter.lean): the step replace_step emits for the request, exactly
+                    rangeplan.tie_replace_step(ctx, info, d, f, t, req, reqs, metas)
                 tr = Transform(d)
                 st, val_, added = ops.run_op(tr, thunk)
                 replay = {"schema": info.name, "doc": d.to_json(), **ops.describe(name, args)}
